@@ -5,7 +5,8 @@ import GoomVerif.Model.Patch
   `c02.hist T=<size>:<hex16>,.. K=<addr>,.. P=<size>,.. X=<rows of 0, 1 or dash> | <builders> | step ; step ; ...`
 
   steps: `a b via t k [o]` apply callback k, `r|w b via t v [o]` Return / When(..).Return, `c b via t` Cancel, `x b` Reset;
-  via ∈ f (Func) e (ExportFunc) m (Struct.Method) u (Struct.ExportMethod).
+  via ∈ f (Func) e (ExportFunc) m (Struct.Method) u (Struct.ExportMethod) v (Func of a method value, the `-fm` by-name path);
+  `k b via t` looks the mocker up and keeps the handle, `A b via t k` / `R b via t v` / `C b via t` act through the kept handle.
   Answer: per step `<ok|panic:class> d=<symbolic diff of .text> b=<behaviour of every target> n=<neighbours>`, then
   `end d=<diff after Reset of every builder>`. -/
 namespace Drv.C02
@@ -78,19 +79,31 @@ def behStr (d : DEnv) (s : St) : String :=
   "b=" ++ String.intercalate "," bs ++ " n=o,o,o"
 
 def viaCode : String → Option Nat
-  | "f" => some 0 | "e" => some 1 | "m" => some 2 | "u" => some 3 | _ => none
+  | "f" => some 0 | "e" => some 1 | "m" => some 2 | "u" => some 3 | "v" => some 4 | _ => none
 
 def isMethod (t : Nat) : Bool := t ≥ 7   -- targets 7.. are the methods of T (harness/c02/targets.go)
 
 def parseStep (d : DEnv) (toks : List String) : Option Op :=
   let chk (b t : Nat) (via : Nat) (o : Option Nat) : Bool :=
-    b < d.nB && t < d.nT && (via < 2 || isMethod t) &&
+    b < d.nB && t < d.nT && (via < 2 || isMethod t) && via < 5 &&
     (match o with | some j => j < d.nP && ((j == 3) == isMethod t) | none => true)
   match toks with
   | ["x", b] => do let b ← b.toNat?; if b < d.nB then pure (.reset b) else none
   | ["c", b, via, t] => do
     let b ← b.toNat?; let v ← viaCode via; let t ← t.toNat?
     if chk b t v none then pure (.cancel b (v * 1000 + t)) else none
+  | ["k", b, via, t] => do
+    let b ← b.toNat?; let v ← viaCode via; let t ← t.toNat?
+    if chk b t v none then pure (.keep b (v * 1000 + t)) else none
+  | ["C", b, via, t] => do
+    let b ← b.toNat?; let v ← viaCode via; let t ← t.toNat?
+    if chk b t v none then pure (.cancelH b (v * 1000 + t)) else none
+  | ["A", b, via, t, k] => do
+    let b ← b.toNat?; let v ← viaCode via; let t ← t.toNat?; let k ← k.toNat?
+    if chk b t v none && k < 4 then pure (.applyH b (v * 1000 + t) (if isMethod t then 4 + k else k)) else none
+  | ["R", b, via, t, _] => do
+    let b ← b.toNat?; let v ← viaCode via; let t ← t.toNat?
+    if chk b t v none then pure (.retH b (v * 1000 + t)) else none
   | kind :: b :: via :: t :: k :: rest => do
     let b ← b.toNat?; let v ← viaCode via; let t ← t.toNat?; let k ← k.toNat?
     let o ← match rest with
@@ -123,6 +136,13 @@ def runHist (d : DEnv) (steps : List (List String)) : String :=
       match parseStep d st with
       | none => (s, "bad-op" :: acc, false)
       | some op =>
+        -- operations through a kept handle need a handle
+        let noHandle := match op with
+          | .applyH b key _ => (s.handle b key).isNone
+          | .retH b key => (s.handle b key).isNone
+          | .cancelH b key => (s.handle b key).isNone
+          | _ => false
+        if noHandle then (s, "bad-op" :: acc, false) else
         let (s1, e) := step d.env s op
         let r := match e with | none => "ok" | some e => errStr e
         go s1 rest (s!"{r} d={diffStr d s1} {behStr d s1}" :: acc)
